@@ -278,6 +278,17 @@ def search(ctx):
             if not (dev <= tol * scale):
                 ctx.violation("C05:rotation:%s" % name, "rotating scatterer, polarisation and detector by %.4f rad changed the hologram (dev %.3g)" % (a, dev),
                               dict(kind="rotation", angle=a, pivot=list(pivot), **info))
+            if name == "Tmatrix":
+                # the half-turned polarisation written as it is, (-1, 0): the wrapper may refuse it, but what it returns must be right
+                ctx.tried("rotation-half-turn-polarisation", (name, type(sc).__name__, i))
+                try:
+                    hneg = calc_holo(detector_points(x=np.array(xr_), y=np.array(yr_), z=0.0), rotate_scatterer(sc, a, pivot), illum_polarization=(-1.0, 0.0),
+                                     theory=mk(), **OPT).values
+                except ValueError:
+                    hneg = None
+                if hneg is not None and not (float(np.abs(hneg - h0).max()) <= tol * scale):
+                    ctx.violation("C05:rotation:Tmatrix:half-turn-polarisation", "half turn about the optical axis with the polarisation given as (-1, 0): the hologram changed by %.3g" % float(np.abs(hneg - h0).max()),
+                                  dict(kind="rotation", angle=a, pivot=list(pivot), pol_given=[-1.0, 0.0], **info))
             # --- mirror: sphere under x- or y-polarised light is symmetric about both axes through its centre
             if isinstance(sc, Sphere):
                 c = np.ravel(sc.center)
